@@ -98,7 +98,7 @@ func shapeClass(shape string) string {
 	switch kind {
 	case "", "id", "perm", "rot", "rev", "revrot", "dirslast":
 		return ""
-	case "link":
+	case "link", "linkperm":
 		form := arg
 		if i := strings.IndexByte(arg, ':'); i >= 0 {
 			form = arg[:i]
@@ -113,10 +113,17 @@ func shapeClass(shape string) string {
 	return kind
 }
 
-func inputClass(g *graphs.Graph, shape string, orderRelated bool) string {
+// inputClass picks the class named in a violation key. cause: "order" (a validating registry
+// rejected a manifest), "not-found" (the importer did not find entries), "" (anything else).
+func inputClass(g *graphs.Graph, shape string, cause string) string {
 	gc := gclass(g)
 	sc := shapeClass(shape)
-	if orderRelated || sc == "" || gc == "index-blob-entry" || gc == "no-config-manifest" {
+	switch {
+	case cause == "order" || sc == "":
+		return gc
+	case cause == "not-found":
+		return sc
+	case gc == "index-blob-entry" || gc == "no-config-manifest":
 		return gc
 	}
 	return sc
@@ -130,14 +137,14 @@ type verdict struct {
 	Msg string
 }
 
-func errCause(im *imported) (cause string, orderRelated bool) {
+func errCause(im *imported) (cause string, class string) {
 	if len(im.Rejected) > 0 && im.IC.Tgt == "regv" {
-		return "rejected-by-validating-registry", true
+		return "rejected-by-validating-registry", "order"
 	}
 	if strings.Contains(im.Err.Error(), "unable to read all files") || strings.Contains(im.Err.Error(), "could not find") {
-		return "entries-not-found", false
+		return "entries-not-found", "not-found"
 	}
-	return "error", false
+	return "error", ""
 }
 
 // judgeOCI judges the import of an OCI layout archive that holds graph g completely.
@@ -150,7 +157,7 @@ func judgeOCI(g *graphs.Graph, srcReach map[string]bool, shape string, im *impor
 		return &verdict{"import-fails:" + cause + ":" + inputClass(g, shape, ord),
 			fmt.Sprintf("import of a well-formed archive failed: %v; rejected=%v order-observations=%v", im.Err, im.Rejected, im.OrderObs)}
 	}
-	cls := inputClass(g, shape, false)
+	cls := inputClass(g, shape, "")
 	if im.Resolve != g.Top {
 		return &verdict{"digest-mismatch:" + cls, fmt.Sprintf("import returned nil but the target reference resolves to %q, source digest is %s (tags at the target: %v)", im.Resolve, g.Top, im.TagsAfter)}
 	}
@@ -173,6 +180,7 @@ type runner struct {
 	multiScan int
 	linkRan   int
 	linkOK    int
+	nsamples  int
 }
 
 func (r *runner) export(ec ExportCase) *exported {
@@ -211,7 +219,7 @@ func (r *runner) judgeExport(c Case, ex *exported) bool {
 			return false
 		}
 		rec.Count("exports_failed", 1)
-		r.outcomes["export-error"]++
+		r.outcomes["export:error"]++
 		r.violation(c, &verdict{"export-fails:" + gclass(g), fmt.Sprintf("ImageExport failed: %v", ex.Err)})
 		return false
 	}
@@ -224,7 +232,8 @@ func (r *runner) judgeExport(c Case, ex *exported) bool {
 	}
 	rec.Count("archive_blob_entries_hashed", int64(nb))
 	rec.Count("archive_entries", int64(len(ex.Ents)))
-	if !isIndexMT(g.Manifests[g.Top].MediaType) {
+	rec.Count("export_external_url_fetches", int64(ex.ExtFetch))
+	if wantsDockerManifest(g) {
 		rec.Count("archives_with_docker_manifest_checked", 1)
 	}
 	if len(ex.Findings) > 0 {
@@ -273,8 +282,15 @@ func (r *runner) noteImport(c Case, im *imported, v *verdict) {
 		o = v.Key
 	}
 	r.outcomes[c.Fam+":"+o]++
+	if r.nsamples < 3 && (r.nsamples == 0 || im.Passes >= 3) {
+		r.nsamples++
+		rec.Sample(map[string]any{"case": c, "outcome": o, "scans": im.Passes, "requests": im.Requests, "resolved": im.Resolve})
+	}
 	if r.verbose {
 		fmt.Printf("%-70s err=%v scans=%d requests=%d resolve=%s verdict=%s\n", c.String(), im.Err, im.Passes, im.Requests, short(im.Resolve), o)
+		for _, l := range im.Trace {
+			fmt.Println("      " + l)
+		}
 	}
 }
 
@@ -313,6 +329,10 @@ func (r *runner) runCase(c Case) {
 			return
 		}
 		raw, err := shapeArchive(ex.Ents, c.Shape)
+		if err == errMalformedShape {
+			r.rec.Count("shapes_skipped_hardlink_before_target", 1)
+			return
+		}
 		if err != nil {
 			r.rec.HarnessError("%s: %v", c, err)
 			return
@@ -326,7 +346,7 @@ func (r *runner) runCase(c Case) {
 		im.done()
 		r.noteImport(c, im, v)
 		r.rec.Count("shape_"+strings.SplitN(c.Shape, ":", 2)[0], 1)
-		if strings.HasPrefix(c.Shape, "link:") {
+		if strings.HasPrefix(c.Shape, "link") {
 			r.linkRan++
 			if v == nil {
 				r.linkOK++
@@ -367,6 +387,8 @@ func (r *runner) runCase(c Case) {
 			ic.Sel, want = "digest:"+g0.Top, g0
 		case "digest1":
 			ic.Sel, want = "digest:"+g1.Top, g1
+		case "tgt-tag1":
+			ic.TgtTag = multiNames[1] // no explicit selection, the target tag equals the ref.name of the second image
 		case "none":
 		default:
 			r.rec.HarnessError("%s: bad selection", c)
@@ -377,9 +399,6 @@ func (r *runner) runCase(c Case) {
 		if want != nil {
 			reach := closureOf(want)
 			v = judgeOCI(want, reach, "", im)
-			if v != nil {
-				v.Key = "multi-image-archive:" + v.Key
-			}
 		} else if im.Err == nil {
 			// nothing selected: either image is acceptable, but it must be one of them and complete
 			var vs []*verdict
@@ -418,8 +437,16 @@ func closureOf(g *graphs.Graph) map[string]bool {
 
 func (r *runner) judgeDockerCase(c Case, da *dockerArchive, im *imported) *verdict {
 	sp := c.Docker
+	// input class of the archive (from the spec alone)
 	cls := sp.Style
-	if sp.Dup != "" {
+	switch {
+	case sp.Dup == "samepath":
+		cls = "repeated-layer-path" // manifest.json lists one path for two layers
+	case (sp.Dup == "symlink" || sp.Dup == "hardlink") && sp.Style == "blobs":
+		cls = "link-nearby" // link target in the link's own directory (same class as the shape family)
+	case sp.Dup == "symlink" || sp.Dup == "hardlink":
+		cls = "link-through-root"
+	case sp.Dup != "":
 		cls += ":dup-" + sp.Dup
 	}
 	if sp.Sel == "absent" {
@@ -438,13 +465,20 @@ func (r *runner) judgeDockerCase(c Case, da *dockerArchive, im *imported) *verdi
 				return nil
 			}
 		}
-		return &verdict{"docker:absent-name-imports-something-else", fmt.Sprintf("no image named %q is in the archive, ImageImport returned nil and the target now resolves to %s: %s", da.SelName, short(im.Resolve), im.TopBody)}
+		return &verdict{"docker:absent-name-imports-something-else", fmt.Sprintf("no image named %q is in the archive, yet ImageImport returned nil and the target now resolves to %s: %s", da.SelName, short(im.Resolve), im.TopBody)}
 	}
 	if im.Err != nil {
 		if strings.HasPrefix(im.Err.Error(), "harness:") {
 			return &verdict{"HARNESS", im.Err.Error()}
 		}
-		return &verdict{"docker:import-fails:" + cls, fmt.Sprintf("import of a well-formed Docker archive failed: %v; rejected=%v", im.Err, im.Rejected)}
+		msg := fmt.Sprintf("import of a well-formed Docker archive failed: %v; rejected=%v", im.Err, im.Rejected)
+		switch {
+		case cls == "repeated-layer-path":
+			return &verdict{"docker:repeated-layer-path", msg}
+		case strings.HasPrefix(cls, "link-") && strings.Contains(im.Err.Error(), "unable to read all files"):
+			return &verdict{"import-fails:entries-not-found:" + cls, msg}
+		}
+		return &verdict{"docker:import-fails:" + cls, msg}
 	}
 	var why []string
 	for _, i := range da.Want {
@@ -454,11 +488,16 @@ func (r *runner) judgeDockerCase(c Case, da *dockerArchive, im *imported) *verdi
 				return &verdict{"docker:incomplete:" + cls, fmt.Sprintf("imported image is incomplete: %v", im.Probs)}
 			}
 			r.rec.Count("docker_layers_compared", int64(len(da.Images[i].Layers)))
+			r.rec.Count("docker_configs_compared", 1)
 			return nil
 		}
 		why = append(why, fmt.Sprintf("vs image %d: %s", i, w))
 	}
-	return &verdict{"docker:wrong-image:" + cls, "imported image does not equal the archive's: " + strings.Join(why, "; ")}
+	msg := "ImageImport returned nil but the imported image does not equal the archive's: " + strings.Join(why, "; ")
+	if cls == "repeated-layer-path" {
+		return &verdict{"docker:repeated-layer-path", msg}
+	}
+	return &verdict{"docker:wrong-image:" + cls, msg}
 }
 
 // ---------------------------------------------------------------------------------------------
@@ -499,7 +538,7 @@ func enumerate(thorough bool) []group {
 	}
 	for _, gn := range allGraphs() {
 		ec := ExportCase{Graph: gn, Src: "reg"}
-		for _, sh := range shapesFor(gn, permBound) {
+		for _, sh := range shapesFor(gn, permBound, thorough) {
 			var g group
 			for _, tg := range targets {
 				e := ec
@@ -520,7 +559,7 @@ func enumerate(thorough bool) []group {
 	// multi
 	for _, pair := range [][2]string{{"G1", "G10"}, {"G3", "G1"}, {"L-SC2", "G7"}, {"G1", "G1-512"}} {
 		for _, swap := range bools() {
-			for _, sel := range []string{"name0", "name1", "digest0", "digest1", "none"} {
+			for _, sel := range []string{"name0", "name1", "digest0", "digest1", "tgt-tag1", "none"} {
 				var g group
 				for _, tg := range targets {
 					ms := MultiSpec{Graphs: pair, Swap: swap, Sel: sel}
@@ -550,7 +589,23 @@ func entryCounts(gn string) (files, blobs int) {
 	return
 }
 
-func shapesFor(gn string, permBound int) []string {
+// linkPermGraphs: graphs whose archives are small enough to combine one link with every entry order.
+func linkPermForms(gn string, thorough bool) []string {
+	switch gn {
+	case "L-IDX1":
+		if thorough {
+			return linkForms
+		}
+		return []string{"sym-up", "sym-sib", "sym-sub", "hard-root", "hard-sib"}
+	case "L-CFG0":
+		if thorough {
+			return linkForms
+		}
+	}
+	return nil
+}
+
+func shapesFor(gn string, permBound int, thorough bool) []string {
 	n, nb := entryCounts(gn)
 	if n == 0 {
 		return nil
@@ -584,14 +639,25 @@ func shapesFor(gn string, permBound int) []string {
 			}
 		}
 	}
+	for _, f := range linkPermForms(gn, thorough) {
+		m := n + 1
+		if f == "sym-chain" {
+			m = n + 2
+		}
+		for i := 0; i < nb; i++ {
+			for k := 0; k < factorial(m); k++ {
+				out = append(out, fmt.Sprintf("linkperm:%s:%d:%d", f, i, k))
+			}
+		}
+	}
 	return out
 }
 
 func dockerSpecs(thorough bool) []DockerSpec {
 	var out []DockerSpec
-	permBound := 5
+	permBound := 6
 	if thorough {
-		permBound = 6
+		permBound = 8
 	}
 	for _, images := range []int{1, 2} {
 		for layers := 1; layers <= 3; layers++ {
@@ -642,16 +708,18 @@ func withOrder(sp DockerSpec, o string) DockerSpec { sp.Order = o; return sp }
 // ---------------------------------------------------------------------------------------------
 
 func rule(thorough bool) string {
-	pb, dpb := 6, 5
+	pb, dpb := 6, 6
+	lp := "graph L-IDX1 (5 entries), forms without sym-chain"
 	if thorough {
-		pb, dpb = 7, 6
+		pb, dpb = 7, 8
+		lp = "graphs L-IDX1 and L-CFG0 (5 entries), all forms"
 	}
 	return fmt.Sprintf("exhaustive product, no sampling: [rt] graphs {%s} x source {model registry, OCI layout dir} x source ref by tag/by digest x gzip off/on x export-ref override off/on -> archive oracle (1 evaluation per export), then x target {validating registry, non-validating registry, layout dir} x import selection {none, ImageWithImportName(full name), ImageWithImportName(tag), target ref by digest} (1 evaluation per import); "+
-		"[shape] every graph exported from a registry by tag, its archive re-serialised by the harness as: same order, every permutation of the non-directory entries when there are <= %d of them (otherwise all rotations, the reversal and all rotations of the reversal), directory entries omitted / last, './' name prefix, gzip, an unrelated file or an unrelated blob inserted at every position, and every blob entry (one at a time, and all at once) replaced by a link of each form {%s} to a second copy (symlinks with the copy before and after the link), each x 3 targets; "+
+		"[shape] every graph exported from a registry by tag, its archive re-serialised by the harness as: same order, every permutation of the non-directory entries when there are <= %d of them (otherwise all rotations, the reversal and all rotations of the reversal), directory entries omitted / last, './' name prefix, gzip, an unrelated file or an unrelated blob inserted at every position, and every blob entry (one at a time, and all at once) replaced by a link of each form {%s} to a second copy (symlinks with the copy before and after the link), and one blob entry replaced by a link combined with every order of all entries (%s; orders that put a hard link before its target are skipped as malformed), each x 3 targets; "+
 		"[docker] harness-built Docker-save archives: images 1-2 (sharing the base layer file) x layers 1-3 x style {legacy <id>/layer.tar, flat <hex>.tar, blobs/sha256/<hex>} x layer files plain/gzip x duplicate-layer form {none, copy, symlink, hardlink, same path twice} x LayerSources (blobs style) x whole archive gzip x selection {none, first RepoTag of image 0, second RepoTag of the last image, absent name} x order {as written, reversed, manifest.json last; every permutation for flat archives of <= %d entries} x 3 targets; "+
-		"[multi] harness-built OCI layout archives with two images x index order x selection {ref.name of either, digest of either, none} x 3 targets. "+
+		"[multi] harness-built OCI layout archives with two images x index order x selection {ref.name of either, digest of either, none with the target tag equal to the second ref.name, none} x 3 targets (an explicit selection must yield exactly that image; without one either image, complete, or an error is accepted). "+
 		"distinct_nontrivial counts distinct cases (full case description) in which the operation actually did its work: an export that produced an archive, an import that stored at least one manifest at the target.",
-		strings.Join(allGraphs(), ","), pb, strings.Join(linkForms, ","), dpb)
+		strings.Join(allGraphs(), ","), pb, strings.Join(linkForms, ","), lp, dpb)
 }
 
 func TestVerifC09(t *testing.T) {
@@ -674,6 +742,7 @@ func TestVerifC09(t *testing.T) {
 			return
 		}
 		r.verbose = true
+		traceImports = true
 		fmt.Printf("replaying: %s\n", c)
 		if c.Fam != "export" && c.Ex != nil {
 			r.runCase(Case{Fam: "export", Ex: c.Ex})
@@ -724,6 +793,7 @@ func TestVerifC09(t *testing.T) {
 	}
 	sort.Strings(keys)
 	rec.Sample(map[string]any{"shard": rec.ShardI, "outcomes": r.outcomes})
+	_ = keys
 }
 
 // vacuity: the run must have exercised the mechanisms it claims to judge (per shard, only demanded
